@@ -257,7 +257,15 @@ def run(rep, tier, root=None):
                     kw = {k.arg: k.value for k in n.keywords}
                     pos = b.target.params.index("seed")
                     arg = kw.get("seed", n.args[pos] if len(n.args) > pos else None)
-                    rep.check(arg is not None and norm_text(arg) == "seed", "Q6.seed-forwarded", "%s -> %s(seed=seed)" % (f.fq, b.target.name),
+                    # the seed itself, or the caller's own generator default_rng(seed) (the callee's default_rng(Generator) is that
+                    # generator: one stream for both, which is what keeps their draws independent)
+                    own_gen = False
+                    if isinstance(arg, ast.Name):
+                        asg = [a_ for a_ in ast.walk(f.node) if isinstance(a_, ast.Assign) and len(a_.targets) == 1 and
+                               isinstance(a_.targets[0], ast.Name) and a_.targets[0].id == arg.id]
+                        own_gen = len(asg) == 1 and isinstance(asg[0].value, ast.Call) and norm_text(asg[0].value.func).endswith("default_rng") \
+                            and len(asg[0].value.args) == 1 and norm_text(asg[0].value.args[0]) == "seed" and asg[0].lineno < n.lineno
+                    rep.check(arg is not None and (norm_text(arg) == "seed" or own_gen), "Q6.seed-forwarded", "%s -> %s(seed=seed)" % (f.fq, b.target.name),
                               "%s calls %s %s: the inner screen is not reproducible" % (f.name, b.target.name,
                                                                                        "without the seed" if arg is None else "with seed=%s" % norm_text(arg)),
                               f.where(n))
